@@ -32,6 +32,27 @@ try:
             missing = [t for t in base["stable_pass"] if t not in passed]
             if not missing:
                 break
+        # order-/RNG-dependent tests: re-run the remaining ones on their own (as tools/baseline.py tolerates flakiness)
+        still = []
+        for t in missing:
+            cls, name = t.split("::", 1)
+            path = cls.replace(".", "/") + ".py"
+            sel = f"{path}::{name}" if os.path.exists(os.path.join(wt, path)) else None
+            okk = False
+            for _ in range(3):
+                if sel is None:
+                    # doctest item: run the module's doctests
+                    mod = cls.replace(".", "/") + ".py"
+                    r = run(f"/venv/bin/python -m pytest -q -p no:cacheprovider --doctest-modules {mod}", cwd=wt, env=env)
+                else:
+                    r = run(f"/venv/bin/python -m pytest -q -p no:cacheprovider {sel}", cwd=wt, env=env)
+                if r.returncode == 0:
+                    okk = True
+                    break
+            if not okk:
+                still.append(t)
+        res["tests_flaky_rerun"] = [t for t in missing if t not in still]
+        missing = still
         res["tests_missing"] = missing
         checks = {}
         for p in props:
